@@ -23,8 +23,8 @@ from aiocoap.cli.fileserver import FileServer
 PROP = "C19"
 LEVEL = "exploration"
 EXHAUSTIVE = True
-RULE = ("E1: complete product of Uri-Path lists (length <= 2 over a 13-component alphabet: '', '.', '..', names, 'a/b', "
-        "'../outside.txt', NUL, '~', non-ASCII; length 3 with three methods; plus absolute-path lists built from the sandbox's own "
+RULE = ("E1: complete product of Uri-Path lists (length <= 2 over a 21-component alphabet: '', '.', '..', names, 'a/b', "
+        "'../outside.txt', NUL, '~', non-ASCII, compatibility forms of dots and slashes; length 3 with three methods; plus absolute-path lists built from the sandbox's own "
         "location) x {GET, PUT, DELETE, POST, FETCH} x write off/on x {no condition, If-None-Match, If-Match '', If-Match wrong} x "
         "Observe {absent, 0} (If-None-Match also combined with If-Match); two servers with roots of their own in one process; block fetches of files of sizes 0,1,15,16,17,1023,1024,1025,2049 at SZX 0-6 in order and out of order. "
         "distinct = distinct (path shape, method, flags, outcome class)")
@@ -246,7 +246,11 @@ def one_request(res, sb, sw_holder, write, comps, method, cond, observe, repopul
             sw_holder.pop(k).dispose()
 
 
-ALPHA = ["", ".", "..", "a", "sub", "f.txt", "h.txt", "a/b", "../outside.txt", "\x00", "f.txt\x00", "~", "ö", "%2e%2e", "..%2foutside.txt"]
+ALPHA = ["", ".", "..", "a", "sub", "f.txt", "h.txt", "a/b", "../outside.txt", "\x00", "f.txt\x00", "~", "ö", "%2e%2e", "..%2foutside.txt",
+         # (EXTRA, with three methods and write access:) characters that compatibility normalisation folds into dots and slashes (U+2025, U+2024 twice, U+FF0E twice, U+FF0F), and
+         # the names they would lead to next to the root
+         ]
+EXTRA = ["\u2025", "\u2024\u2024", "\uff0e\uff0e", "\u2025\uff0foutside.txt", "outside.txt", "rootx"]
 METHODS = (GET, PUT, DELETE, POST, FETCH)
 CONDS = ("none", "inm", "im-empty", "im-wrong", "inm+im-wrong", "inm+im-empty")
 
@@ -299,6 +303,17 @@ def emptied_tree(res, sb, holder):
     directories is asked to be deleted, replaced and fetched: the directory the server was started with stays, whatever is in it."""
     small = ["", ".", "..", "sub", "a"]
     spellings = [p for n in range(0, 3) for p in itertools.product(small, repeat=n)]
+    # ... also with the file deepest in the tree going last, when its directory is all that is left in the root
+    sb.populate()
+    for k in list(holder):
+        holder.pop(k).dispose()
+    (sb.root / "a").rmdir()
+    for path in (["f.txt"], ["g.bin"], ["sub", "h.txt"]):
+        one_request(res, sb, holder, True, path, DELETE, "none", False, repopulate=False)
+        if not sb.root.is_dir():
+            res.violate(Violation("changed-outside-root", "the served directory itself stays", "it is gone after DELETE %s" % "/".join(path),
+                                  "cli/fileserver.py:render_delete", {"emptied": ["deepest-last"], "path": path}, key="root-gone"))
+            break
     for keep_dirs in (True, False):
         for comps in spellings:
             for method in (DELETE, PUT, GET):
@@ -313,9 +328,14 @@ def emptied_tree(res, sb, holder):
                     res.violate(Violation("delete-refused", "files inside the root can be deleted", leftover, "cli/fileserver.py:render_delete",
                                           {"emptied": True}, key="emptying"))
                     return
+                if not sb.root.is_dir():
+                    res.violate(Violation("changed-outside-root", "the served directory itself stays", "it is gone after the files were deleted",
+                                          "cli/fileserver.py:render_delete", {"emptied": [keep_dirs], "path": ["sub", "h.txt"]}, key="root-gone"))
+                    continue
                 if not keep_dirs:
-                    (sb.root / "sub").rmdir()
-                    (sb.root / "a").rmdir()
+                    for dn in ("sub", "a"):
+                        if (sb.root / dn).is_dir():
+                            (sb.root / dn).rmdir()
                 one_request(res, sb, holder, True, list(comps), method, "none", False, repopulate=False)
                 if not sb.root.is_dir():
                     res.violate(Violation("changed-outside-root", "the served directory itself stays", "it is gone", "cli/fileserver.py:render_delete",
@@ -464,7 +484,8 @@ def run(tier, seed, jobs):
     p3 = list(itertools.product(ALPHA, repeat=3))
     if tier == "quick":
         p3 = [p for i, p in enumerate(p3) if (i + seed) % 3 == 0]
-    work = [("paths", p2[i::24], tier) for i in range(24)] + [("paths3", p3[i::24], tier) for i in range(24)]
+    px = [p for n in range(1, 4) for p in itertools.product(ALPHA + EXTRA, repeat=n) if any(c in EXTRA for c in p) and (n < 3 or p[2] in EXTRA + ["", "f.txt"])]
+    work = [("paths", p2[i::24], tier) for i in range(24)] + [("paths3", (p3 + px)[i::24], tier) for i in range(24)]
     work += [("abs", None, tier), ("blocks", None, tier), ("histories", None, tier)]
     if tier == "thorough":
         p4 = [p for p in itertools.product(ALPHA[:9], repeat=4)]
